@@ -27,6 +27,16 @@ CLAIMED = {
    note="Trusted: as C01 plus encoding/binary axioms and the definition of reg (existence from gcd(R,q)=1, q odd checked). Not under contract: SetBytes/SetBigInt/BigInt/Text/SetString/JSON (math/big, strconv) and the vector readers/writers.",
    technique="contract-based deductive verification (go/ssa symbolic execution, //@ contracts, verif-tagged lemma functions, SMT)",
    design="§5 C08"),
+ "C14": dict(
+   text="Deductive proof for MiMC of all 8 curves (encrypt = documented number of rounds of x -> (x+k+c_i)^d then +k, by loop invariant against a recursive specification; checksum = Miyaguchi-Preneel fold; Write never slices its input beyond len(p), accepts only whole blocks or one short left-padded block and reports consumed bytes; SetState and Sum flush pending blocks) and for the Poseidon2 external/internal linear layers (published matrices, widths 2 and 3) and S-box of the 8 curve-field instances.",
+   note="Trusted: ring layer over fr.Element; documented MiMC exponents/round counts and Poseidon2 matrices; the round-constant tables are fixed arrays whose derivation is not under contract; interface fr.ByteOrder assumed (its implementations are proved under C08). Not under contract: Poseidon2 round schedule and wrappers, small-field Poseidon2, ring-SIS, Merkle-Damgard wrapper, registry.",
+   technique="contract-based deductive verification: loop invariants against recursive SMT specification functions, strict slice-bound obligations, ring-layer identities",
+   design="§5 C14"),
+ "C16": dict(
+   text="Deductive proof for the Vortex Poseidon2 Merkle proof verifier: MerkleProof.Verify returns nil exactly when the fold of the leaf along the proof (left/right chosen by the bits of the index; loop invariant against a recursive specification with the compression function uninterpreted) equals the root and the index lies in [0, 2^len(proof)).",
+   note="Trusted: CompressPoseidon2 is a deterministic function of its two arguments (assumed contract); i >> n == 0 iff 0 <= i < 2^n. Not under contract: BuildMerkleTree / Open (nested slices, parallel.Execute) and the accumulator/merkletree package (bounded stand-in not built).",
+   technique="contract-based deductive verification with an opaque-value layer (uninterpreted hash sort), loop invariant over a recursive specification function",
+   design="§5 C16"),
  "C19": dict(
    text="Deductive proof per alias partition: every field-element function under contract with two or more pointer operands (Add, Sub, Double, Neg, Select, Mul, Square, _mulGeneric, Set, Equal, NotEqual, Cmp, ...) is verified once for every set partition of its pointer operands with exact points-to, against postconditions over old() values and a frame clause that forbids writes to non-destination operands.",
    note="Covers the prime-field layer of all 23 packages (portable Go bodies). Extension-field, point, polynomial and vector methods are not yet under contract (not_covered); assembly leaf methods are outside (C09).",
